@@ -64,7 +64,9 @@ Tri(ev) == /\ ev.out = "ok" /\ AllFin(ev.x)
                   X == [i \in 1..ev.n |-> <<Val(ev.x[i])>>]
               IN MatMul(T, X) = [i \in 1..ev.n |-> <<R(ev.b[i])>>]
 
-Step(ev) == CASE ev.kind = "exact" -> Exact(ev) [] ev.kind = "obs" -> Obs(ev) [] ev.kind = "lu" -> LU(ev)
+\* positive definiteness and the factor do not depend on the units: A s^2 is accepted and factored as L s (s a power of two: exactly)
+CholScaled(ev) == ev.slice_ok = TRUE /\ ev.matrix_ok = TRUE /\ ev.slice_is_scaled_factor = TRUE /\ ev.matrix_is_scaled_factor = TRUE
+Step(ev) == CASE ev.kind = "chol_scaled" -> CholScaled(ev) [] ev.kind = "exact" -> Exact(ev) [] ev.kind = "obs" -> Obs(ev) [] ev.kind = "lu" -> LU(ev)
               [] ev.kind = "det" -> DetEv(ev) [] ev.kind = "chol" -> Chol(ev) [] ev.kind = "reject" -> Reject(ev)
               [] ev.kind = "tri" -> Tri(ev)
 Next == l <= Len(Rec) /\ Step(Rec[l]) /\ l' = l + 1
